@@ -2,6 +2,7 @@ package rules
 
 import (
 	"fmt"
+	"go/token"
 	"go/types"
 	"strings"
 
@@ -45,7 +46,41 @@ func (c *Ctx) RequestMessageScoped(prop string) {
 	})
 }
 
-func (c *Ctx) requestScoped(rule string, what string, floor int, isCred func(types.Type) bool) {
+func (c *Ctx) requestScoped(rule string, what string, floor int, isCred func(types.Type) bool, fresh ...bool) {
+	mustBeFresh := len(fresh) > 0 && fresh[0]
+	// for response messages: a place inside another response message of the same call (the per-request entries of a batch
+	// response) is as request-scoped as the message itself
+	inside := func(addr ssa.Value) bool {
+		if !mustBeFresh {
+			return false
+		}
+		v := addr
+		for i := 0; i < 8 && v != nil; i++ {
+			if isCred(v.Type()) {
+				return true
+			}
+			switch x := v.(type) {
+			case *ssa.FieldAddr:
+				v = x.X
+			case *ssa.IndexAddr:
+				v = x.X
+			case *ssa.Slice:
+				v = x.X
+			case *ssa.UnOp:
+				v = x.X
+			case *ssa.Call:
+				// a protobuf getter of a response message
+				if len(x.Call.Args) == 1 && x.Call.StaticCallee() != nil && strings.HasPrefix(x.Call.StaticCallee().Name(), "Get") {
+					v = x.Call.Args[0]
+				} else {
+					return false
+				}
+			default:
+				return false
+			}
+		}
+		return false
+	}
 	nvals, nfn := 0, 0
 	for _, fn := range c.P.ModuleFuncs() {
 		if prog.IsTestish(prog.PkgPathOf(fn)) || fn.Blocks == nil {
@@ -67,12 +102,38 @@ func (c *Ctx) requestScoped(rule string, what string, floor int, isCred func(typ
 			}
 		}
 		// values produced here: calls returning credentials (GenerateCredentials) and loads of credential cells
+		var stale []ssa.Instruction
+		var staleWhy []string
 		for _, b := range fn.Blocks {
 			for _, ins := range b.Instrs {
 				if v, ok := ins.(ssa.Value); ok && isCred(v.Type()) {
-					switch ins.(type) {
-					case *ssa.Call, *ssa.UnOp, *ssa.Phi, *ssa.Extract, *ssa.Alloc:
+					switch x := ins.(type) {
+					case *ssa.Call, *ssa.Phi, *ssa.Alloc:
 						roots = append(roots, v)
+					case *ssa.UnOp:
+						roots = append(roots, v)
+						if mustBeFresh && x.Op == token.MUL && !localAddr(x.X) && !inside(x.X) {
+							if _, isFV := x.X.(*ssa.FreeVar); !isFV {
+								stale = append(stale, ins)
+								staleWhy = append(staleWhy, "it is read from "+an.Term(x.X)+", which outlives the request")
+							}
+						}
+					case *ssa.Extract:
+						roots = append(roots, v)
+						if ta, isTA := x.Tuple.(*ssa.TypeAssert); isTA && mustBeFresh {
+							if w := foreignSource(ta.X); w != "" {
+								stale = append(stale, ins)
+								staleWhy = append(staleWhy, w)
+							}
+						}
+					case *ssa.TypeAssert:
+						roots = append(roots, v)
+						if mustBeFresh {
+							if w := foreignSource(x.X); w != "" {
+								stale = append(stale, ins)
+								staleWhy = append(staleWhy, w)
+							}
+						}
 					}
 				}
 			}
@@ -82,6 +143,10 @@ func (c *Ctx) requestScoped(rule string, what string, floor int, isCred func(typ
 		}
 		nfn++
 		bad := 0
+		for i, ins := range stale {
+			bad++
+			c.R.Fail(rule, Fn(fn)+":origin", c.Pos(ins), "a "+what+" is not made by the call that hands it out: "+staleWhy[i]+" (whoever else holds the object can rewrite it before it is sent, or it answers an earlier request)", what+" objects are allocated by the call that fills them", nil)
+		}
 		for _, v := range roots {
 			nvals++
 			for _, r := range *v.Referrers() {
@@ -91,7 +156,7 @@ func (c *Ctx) requestScoped(rule string, what string, floor int, isCred func(typ
 					if x.Val != v {
 						continue
 					}
-					if !localAddr(x.Addr) {
+					if !localAddr(x.Addr) && !inside(x.Addr) {
 						why = "it is stored into " + an.Term(x.Addr) + ", which outlives the request"
 					} else if cell, isCell := x.Addr.(*ssa.Alloc); isCell {
 						// a local variable (or a captured parameter's cell): the closures that capture the cell
@@ -119,10 +184,22 @@ func (c *Ctx) requestScoped(rule string, what string, floor int, isCred func(typ
 					}
 				case *ssa.Go:
 					why = "it is handed to a goroutine"
+				case *ssa.MakeInterface:
+					if mustBeFresh {
+						for _, mr := range *x.Referrers() {
+							ci, isCall := mr.(ssa.CallInstruction)
+							if !isCall {
+								continue
+							}
+							if w := retainingCallee(ci); w != "" {
+								why = "it is handed to " + w + ", which keeps it beyond the request"
+							}
+						}
+					}
 				}
 				if why != "" {
 					bad++
-					c.R.Fail(rule, Fn(fn), c.Pos(r), "a request's "+what+" can reach another request: "+why, "credentials are only handed down, read, kept in locals or in objects this call allocated, or captured by closures the call itself runs or hands to module code", nil)
+					c.R.Fail(rule, Fn(fn), c.Pos(r), "a request's "+what+" can reach another request: "+why, what+" values are only handed down, read, kept in locals or in objects this call allocated, or captured by closures the call itself runs or hands to module code", nil)
 				}
 			}
 			// a local cell holding the credentials that is captured: the closures binding the cell
@@ -217,4 +294,52 @@ func (c *Ctx) closureEscapes(mc *ssa.MakeClosure) string {
 		}
 	}
 	return ""
+}
+
+// foreignSource: the interface value comes out of code outside the module that hands out retained objects (sync.Pool.Get,
+// sync.Map.Load, a cache): "" when it was produced by module code or is a parameter.
+func foreignSource(v ssa.Value) string {
+	if ex, ok := v.(*ssa.Extract); ok {
+		v = ex.Tuple
+	}
+	call, ok := v.(*ssa.Call)
+	if !ok {
+		return ""
+	}
+	f := call.Call.StaticCallee()
+	if call.Call.IsInvoke() || f == nil || prog.InModule(f) {
+		return ""
+	}
+	if f.Pkg != nil && (f.Pkg.Pkg.Path() == "sync" || f.Pkg.Pkg.Path() == "sync/atomic" || strings.Contains(f.Pkg.Pkg.Path(), "cache") || strings.Contains(f.Pkg.Pkg.Path(), "singleflight")) {
+		return "it is taken out of " + f.String() + ": an object other requests hold or held"
+	}
+	return ""
+}
+
+// retainingCallee: the call keeps its interface argument (sync.Pool.Put, sync.Map.Store, atomic.Value.Store, a cache).
+func retainingCallee(ci ssa.CallInstruction) string {
+	f := ci.Common().StaticCallee()
+	if f == nil || ci.Common().IsInvoke() || prog.InModule(f) || f.Pkg == nil {
+		return ""
+	}
+	p := f.Pkg.Pkg.Path()
+	if p == "sync" || p == "sync/atomic" || strings.Contains(p, "cache") || strings.Contains(p, "singleflight") {
+		return f.String()
+	}
+	return ""
+}
+
+// ReplyRequestScoped (C16.O5 reply.request-scoped): the protobuf response a handler returns is serialised by the gRPC
+// framework after the handler (and the interceptors around it) returned. What the requester receives is what the object
+// holds then: a response object is allocated by the call that fills it, never read from or put into state that outlives the
+// request (a field, a package variable, a pool, a cache, a channel), and never captured by code that runs later.
+func (c *Ctx) ReplyRequestScoped(prop string) {
+	c.requestScoped("C16.O5 reply.request-scoped", "response message", 10, func(t types.Type) bool {
+		p, ok := t.(*types.Pointer)
+		if !ok {
+			return false
+		}
+		n, ok := p.Elem().(*types.Named)
+		return ok && n.Obj().Pkg() != nil && n.Obj().Pkg().Path() == pkgPB && strings.HasSuffix(n.Obj().Name(), "Response")
+	}, true)
 }
